@@ -276,7 +276,9 @@ def sort_assignments(
                 "Try to save the ODE to an .ode file first and load it again"
             )
             raise exceptions.GotranxError(msg)
-        sorter.add(assignment.name, *assignment.value.dependencies)
+        # The dependencies are a set of strings, and the iteration order of such a set
+        # depends on the hash seed of the process. Sort them to get the same order every time
+        sorter.add(assignment.name, *sorted(assignment.value.dependencies))
 
     static_order = tuple(sorter.static_order())
 
